@@ -51,3 +51,20 @@ package verifspec
 //@   loop 1 hint head: unfold rpos(str, j + 1)
 //@   ensures rpos(str, len(result)) == len(str)
 //@   ensures forall(k, 0, len(result), result[k] == decR(str, rpos(str, k)))
+
+// $runesToString (string(runes)): the concatenation of the encodings; elen(s, k) is the byte length of the first k
+// encodings.  Every rune decodes back at its position (invalid code points as U+FFFD).
+//@ pure enc1(r int) int = validRune(r) ? r : 65533
+//@ pure elen(s []int, k int) int = k <= 0 ? 0 : elen(s, k - 1) + encLen(enc1(s[k - 1]))
+//@ js prelude.js $runesToString
+//@ property C14
+//@   param slice: slice
+//@   returns str
+//@   requires slice.$length <= 100000000
+//@   loop 1 invariant 0 <= i && i <= slice.$length && len(str) == elen(slice.$array[slice.$offset:], i)
+//@   loop 1 invariant forall(k, 0, i, decR(str, elen(slice.$array[slice.$offset:], k)) == enc1(slice.$array[slice.$offset + k]) && decW(str, elen(slice.$array[slice.$offset:], k)) == encLen(enc1(slice.$array[slice.$offset + k])) && 0 <= elen(slice.$array[slice.$offset:], k) && elen(slice.$array[slice.$offset:], k) + encLen(enc1(slice.$array[slice.$offset + k])) <= len(str))
+//@   loop 1 hint head: unfold elen(slice.$array[slice.$offset:], i + 1)
+//@   loop 1 hint init: unfold elen(slice.$array[slice.$offset:], 0)
+//@   hint return: unfold elen(slice.$array[slice.$offset:], 0)
+//@   ensures len(result) == elen(slice.$array[slice.$offset:], slice.$length)
+//@   ensures forall(k, 0, slice.$length, decR(result, elen(slice.$array[slice.$offset:], k)) == enc1(slice.$array[slice.$offset + k]))
